@@ -235,8 +235,8 @@ Proof.
 Qed.
 
 (* all four committed repairs in place; the Event-Timestamp requirement on (= repaired) or off (= head) *)
-Definition flt (ts : bool) : flags :=
-  {| f_reply := true; f_coaauth := true; f_dmwin := true; f_white := true; f_tsreq := ts |}.
+Definition flt (ts dd : bool) : flags :=
+  {| f_reply := true; f_coaauth := true; f_dmwin := true; f_white := true; f_tsreq := ts; f_dedup := dd |}.
 
 Lemma window_ok_req_spec (w now : Z) (attrs : list attr) :
   window_ok_req w now attrs = true <->
@@ -251,13 +251,14 @@ Qed.
 Section Q.
 Variable md5raw : bytes -> bytes.
 Variable tsr : bool.
+Variable ddp : bool.
 
 Lemma nak_effect fl cl secret raw p code cause st : effect (nak md5raw fl cl secret raw p code cause st) = None.
 Proof. reflexivity. Qed.
 
 Lemma handle_coa_effect cfg now bus cl secret raw p e :
-  effect (handle_coa md5raw (flt tsr) cfg now bus cl secret raw p) = Some e ->
-  window_check (flt tsr) (window cfg) now (p_attrs p) = true /\
+  effect (handle_coa md5raw (flt tsr ddp) cfg now bus cl secret raw p) = Some e ->
+  window_check (flt tsr ddp) (window cfg) now (p_attrs p) = true /\
   exists t delta, e = EvMutation t delta /\ resolve_target (p_attrs p) = Some t /\
     nasid_ok (nasid cfg) (p_attrs p) = true /\ has_service_type (p_attrs p) 8 = false /\
     delta = strip_non_mutable (extract_attributes (maps cfg) (p_attrs p)) /\ delta <> [] /\
@@ -265,7 +266,7 @@ Lemma handle_coa_effect cfg now bus cl secret raw p e :
 Proof.
   unfold handle_coa.
   destruct (has_service_type (p_attrs p) 8) eqn:Hs; [rewrite nak_effect; discriminate|].
-  destruct (window_check (flt tsr) (window cfg) now (p_attrs p)) eqn:Hw; simpl negb; cbv iota; [|discriminate].
+  destruct (window_check (flt tsr ddp) (window cfg) now (p_attrs p)) eqn:Hw; simpl negb; cbv iota; [|discriminate].
   destruct (resolve_target (p_attrs p)) as [t|] eqn:Ht; [|rewrite nak_effect; discriminate].
   destruct (nasid_ok (nasid cfg) (p_attrs p)) eqn:Hn; simpl negb; cbv iota; [|rewrite nak_effect; discriminate].
   destruct (strip_non_mutable (extract_attributes (maps cfg) (p_attrs p))) as [|kv delta] eqn:Hd;
@@ -279,26 +280,26 @@ Proof.
 Qed.
 
 Lemma handle_dm_effect cfg now cl secret raw p e :
-  effect (handle_dm md5raw (flt tsr) cfg now cl secret raw p) = Some e ->
-  window_check (flt tsr) (window cfg) now (p_attrs p) = true /\
+  effect (handle_dm md5raw (flt tsr ddp) cfg now cl secret raw p) = Some e ->
+  window_check (flt tsr ddp) (window cfg) now (p_attrs p) = true /\
   exists t, e = EvTerminate t /\ resolve_target (p_attrs p) = Some t /\
     nasid_ok (nasid cfg) (p_attrs p) = true /\ has_non_ident (p_attrs p) = false.
 Proof.
   unfold handle_dm.
   destruct (has_non_ident (p_attrs p)) eqn:Hs; [rewrite nak_effect; discriminate|].
-  destruct (window_check (flt tsr) (window cfg) now (p_attrs p)) eqn:Hw; simpl f_dmwin; simpl negb; simpl andb; cbv iota; [|discriminate].
+  destruct (window_check (flt tsr ddp) (window cfg) now (p_attrs p)) eqn:Hw; simpl f_dmwin; simpl negb; simpl andb; cbv iota; [|discriminate].
   destruct (resolve_target (p_attrs p)) as [t|] eqn:Ht; [|rewrite nak_effect; discriminate].
   destruct (nasid_ok (nasid cfg) (p_attrs p)) eqn:Hn; simpl negb; cbv iota; [|rewrite nak_effect; discriminate].
   simpl. intros He; inversion He; subst. split; [reflexivity|]. exists t. auto.
 Qed.
 
 Lemma coa_admission cfg now src bus raw e :
-  effect (coa_step md5raw (flt tsr) cfg now src bus raw) = Some e ->
+  effect (coa_step md5raw (flt tsr ddp) cfg now src bus raw) = Some e ->
   exists cl c p,
     find_client 0 (clients cfg) src = Some (cl, c) /\ parse raw = Some p /\
     req_auth_ok md5raw (c_secret c) (truncate raw) = true /\
     ma_req_ok_rfc md5raw (c_secret c) (truncate raw) = true /\
-    window_check (flt tsr) (window cfg) now (p_attrs p) = true /\
+    window_check (flt tsr ddp) (window cfg) now (p_attrs p) = true /\
     match e with
     | EvMutation t delta =>
       p_code p = 43 /\ resolve_target (p_attrs p) = Some t /\ nasid_ok (nasid cfg) (p_attrs p) = true /\
@@ -574,12 +575,12 @@ Definition admitted_by (md5raw : bytes -> bytes) (cfg : coacfg) (src : N) (raw :
     match e with EvMutation _ _ => p_code p = 43 | EvTerminate _ => p_code p = 40 end.
 
 Lemma coa_admission_gen :
-  forall md5raw tsr cfg now src bus raw e,
-    effect (coa_step md5raw (flt tsr) cfg now src bus raw) = Some e ->
-    admitted_by md5raw cfg src raw e (fun p => window_check (flt tsr) (window cfg) now (p_attrs p) = true).
+  forall md5raw tsr ddp cfg now src bus raw e,
+    effect (coa_step md5raw (flt tsr ddp) cfg now src bus raw) = Some e ->
+    admitted_by md5raw cfg src raw e (fun p => window_check (flt tsr ddp) (window cfg) now (p_attrs p) = true).
 Proof.
-  intros md5raw tsr cfg now src bus raw e He.
-  destruct (coa_admission md5raw tsr cfg now src bus raw e He) as (cl & c & p & Hc & Hp & Hra & Hma & Hw & Hm).
+  intros md5raw tsr ddp cfg now src bus raw e He.
+  destruct (coa_admission md5raw tsr ddp cfg now src bus raw e He) as (cl & c & p & Hc & Hp & Hra & Hma & Hw & Hm).
   apply find_client_spec in Hc as (_ & Hn & Hcs & Hfirst). rewrite Nat.sub_0_r in *.
   exists cl, c, p. repeat split; auto.
   - destruct e; apply Hm.
@@ -596,7 +597,7 @@ Lemma coa_admission_thm :
                  (- window cfg <= now - Z.of_N (event_ts (p_attrs p)) <= window cfg)%Z)).
 Proof.
   intros md5raw cfg now src bus raw e He.
-  destruct (coa_admission_gen md5raw true cfg now src bus raw e He) as (cl & c & p & H).
+  destruct (coa_admission_gen md5raw true true cfg now src bus raw e He) as (cl & c & p & H).
   exists cl, c, p. intuition. apply window_ok_req_spec. assumption.
 Qed.
 
@@ -609,7 +610,7 @@ Lemma coa_admission_head_thm :
                 (- window cfg <= now - Z.of_N (event_ts (p_attrs p)) <= window cfg)%Z).
 Proof.
   intros md5raw cfg now src bus raw e He.
-  destruct (coa_admission_gen md5raw false cfg now src bus raw e He) as (cl & c & p & H).
+  destruct (coa_admission_gen md5raw false false cfg now src bus raw e He) as (cl & c & p & H).
   exists cl, c, p. intuition. apply window_ok_spec. assumption.
 Qed.
 
@@ -629,8 +630,8 @@ Proof.
 Qed.
 
 Lemma coa_mutable_only_thm :
-  forall md5raw tsr cfg now src bus raw e,
-    effect (coa_step md5raw (flt tsr) cfg now src bus raw) = Some e ->
+  forall md5raw tsr ddp cfg now src bus raw e,
+    effect (coa_step md5raw (flt tsr ddp) cfg now src bus raw) = Some e ->
     exists p, parse raw = Some p /\
       match e with
       | EvMutation t delta =>
@@ -640,8 +641,8 @@ Lemma coa_mutable_only_thm :
         resolve_target (p_attrs p) = Some t /\ has_non_ident (p_attrs p) = false
       end.
 Proof.
-  intros md5raw tsr cfg now src bus raw e He.
-  destruct (coa_admission md5raw tsr cfg now src bus raw e He) as (cl & c & p & _ & Hp & _ & _ & _ & Hm).
+  intros md5raw tsr ddp cfg now src bus raw e He.
+  destruct (coa_admission md5raw tsr ddp cfg now src bus raw e He) as (cl & c & p & _ & Hp & _ & _ & _ & Hm).
   exists p. split; [exact Hp|]. destruct e as [t delta|t].
   - destruct Hm as (_ & Ht & _ & _ & Hd & Hne & Ha). repeat split; auto.
     + eapply all_allowed_spec; eauto.
@@ -830,3 +831,153 @@ Proof.
 Qed.
 
 End U.
+
+(* ------------------------------------------------------------------ /repo HEAD and the replay window *)
+Section V.
+Variable md5raw : bytes -> bytes.
+
+Lemma window_ok_no_ts (w now : Z) (attrs : list attr) : event_ts attrs = 0 -> window_ok w now attrs = true.
+Proof. intros H. unfold window_ok. rewrite H. destruct (0 <? w)%Z; reflexivity. Qed.
+
+(* the clock enters coa_step only through the window test *)
+Lemma coa_step_now_indep fl cfg now1 now2 src bus raw :
+  (forall p, parse raw = Some p ->
+             window_check fl (window cfg) now1 (p_attrs p) = window_check fl (window cfg) now2 (p_attrs p)) ->
+  coa_step md5raw fl cfg now1 src bus raw = coa_step md5raw fl cfg now2 src bus raw.
+Proof.
+  intros H. unfold coa_step.
+  destruct (find_client 0 (clients cfg) src) as [[cl c]|]; [|reflexivity].
+  destruct (parse raw) as [p|] eqn:Hp; [|reflexivity].
+  specialize (H p eq_refl).
+  unfold handle_coa, handle_dm. rewrite H. reflexivity.
+Qed.
+
+(* EXACTLY what HEAD admits without a usable Event-Timestamp: the decision does not depend on the clock at all *)
+Lemma head_untimestamped_clock_independent cfg now1 now2 src bus raw p :
+  parse raw = Some p -> event_ts (p_attrs p) = 0 ->
+  coa_step md5raw head cfg now1 src bus raw = coa_step md5raw head cfg now2 src bus raw.
+Proof.
+  intros Hp Hts. apply coa_step_now_indep. intros p' Hp'. rewrite Hp in Hp'. inversion Hp'; subst p'.
+  unfold window_check. simpl f_tsreq. cbv iota. rewrite !window_ok_no_ts; auto.
+Qed.
+
+(* HEAD: the span bound holds for every request that carries a usable Event-Timestamp *)
+Lemma coa_replay_span_bounded_head :
+  forall cfg src raw p now1 bus1 e1 now2 bus2 e2,
+    (0 < window cfg)%Z ->
+    parse raw = Some p -> event_ts (p_attrs p) <> 0 ->
+    effect (coa_step md5raw head cfg now1 src bus1 raw) = Some e1 ->
+    effect (coa_step md5raw head cfg now2 src bus2 raw) = Some e2 ->
+    (Z.abs (now1 - now2) <= 2 * window cfg)%Z.
+Proof.
+  intros cfg src raw p now1 bus1 e1 now2 bus2 e2 Hw Hp Hts H1 H2.
+  destruct (coa_admission_head_thm _ _ _ _ _ _ _ H1) as (? & ? & p1 & _ & _ & _ & Hp1 & _ & _ & Hw1 & _).
+  destruct (coa_admission_head_thm _ _ _ _ _ _ _ H2) as (? & ? & p2 & _ & _ & _ & Hp2 & _ & _ & Hw2 & _).
+  rewrite Hp in Hp1, Hp2. inversion Hp1; subst p1. inversion Hp2; subst p2. lia.
+Qed.
+
+End V.
+
+(* ------------------------------------------------------------------ duplicate detection over histories *)
+Section W.
+Variable md5raw : bytes -> bytes.
+Variable fl : flags.
+Hypothesis Hdd : f_dedup fl = true.
+
+Lemma effect_reached o e : effect o = Some e -> reached_worker o = true.
+Proof. destruct o; simpl; try discriminate; auto. Qed.
+
+Lemma effect_is_reply o e : effect o = Some e -> exists cl st r, o = OReply cl st r (Some e).
+Proof. destruct o; simpl; try discriminate. intros ->. eauto. Qed.
+
+Lemma effect_has_key cfg now src bus raw e :
+  effect (coa_step md5raw fl cfg now src bus raw) = Some e -> exists k, dedup_key cfg src raw = Some k.
+Proof.
+  unfold coa_step, dedup_key. destruct (find_client 0 (clients cfg) src) as [[cl c]|]; [eauto|discriminate].
+Qed.
+
+(* a known key takes no effect *)
+Lemma step_known_no_effect cfg now src bus raw seen sec k r :
+  dedup_key cfg src raw = Some (sec, k) -> cache_find sec k seen = Some r ->
+  effect (fst (coa_step_st md5raw fl cfg now src bus raw seen)) = None.
+Proof.
+  intros Hk Hf. unfold coa_step_st. rewrite Hdd, Hk, Hf. simpl andb.
+  destruct (reached_worker (coa_step md5raw fl cfg now src bus raw)) eqn:Hr.
+  - destruct (coa_step md5raw fl cfg now src bus raw); reflexivity.
+  - simpl. destruct (effect (coa_step md5raw fl cfg now src bus raw)) eqn:He; [|reflexivity].
+    apply effect_reached in He. congruence.
+Qed.
+
+Lemma cache_find_cons sec k c sec' k' r' :
+  cache_find sec k c <> None -> cache_find sec k ((sec', k', r') :: c) <> None.
+Proof. simpl. destruct (beq sec sec' && beq k k')%bool; [discriminate|auto]. Qed.
+
+(* the cache only grows *)
+Lemma step_monotone cfg now src bus raw seen sec k :
+  cache_find sec k seen <> None ->
+  cache_find sec k (snd (coa_step_st md5raw fl cfg now src bus raw seen)) <> None.
+Proof.
+  intros H. unfold coa_step_st. destruct (f_dedup fl && reached_worker _)%bool; [|exact H].
+  destruct (dedup_key cfg src raw) as [[s1 k1]|]; [|exact H].
+  destruct (cache_find s1 k1 seen); [exact H|].
+  destruct (coa_step md5raw fl cfg now src bus raw); try exact H. simpl snd. apply cache_find_cons; exact H.
+Qed.
+
+(* a step that takes effect leaves its key in the cache *)
+Lemma step_effect_remembered cfg now src bus raw seen e sec k :
+  effect (fst (coa_step_st md5raw fl cfg now src bus raw seen)) = Some e ->
+  dedup_key cfg src raw = Some (sec, k) ->
+  cache_find sec k (snd (coa_step_st md5raw fl cfg now src bus raw seen)) <> None.
+Proof.
+  unfold coa_step_st. rewrite Hdd. simpl andb. intros He Hk. rewrite Hk in *.
+  destruct (reached_worker (coa_step md5raw fl cfg now src bus raw)) eqn:Hr.
+  - destruct (cache_find sec k seen) as [c|] eqn:Hf.
+    + exfalso. destruct (coa_step md5raw fl cfg now src bus raw); simpl in He; discriminate.
+    + destruct (coa_step md5raw fl cfg now src bus raw) eqn:Ho; simpl in He; try discriminate.
+      simpl snd. simpl. rewrite !beq_refl. discriminate.
+  - simpl in He. apply effect_reached in He. congruence.
+Qed.
+
+Definition key_of (cfg : coacfg) (i : coa_input) : option (bytes * bytes) :=
+  let '(_, src, _, raw) := i in dedup_key cfg src raw.
+
+(* once a key is in the cache, no later datagram with that key takes effect *)
+Lemma run_known_no_effect cfg : forall ins seen sec k j i,
+  cache_find sec k seen <> None ->
+  nth_error ins j = Some i -> key_of cfg i = Some (sec, k) ->
+  forall o, nth_error (coa_run md5raw fl cfg seen ins) j = Some o -> effect o = None.
+Proof.
+  induction ins as [|[[[now src] bus] raw] r IH]; intros seen sec k j i Hs Hn Hk o Ho; [destruct j; discriminate|].
+  simpl in Ho. destruct (coa_step_st md5raw fl cfg now src bus raw seen) as [o1 seen1] eqn:Hst.
+  destruct j as [|j]; simpl in Hn, Ho.
+  - inversion Hn; subst i. inversion Ho; subst o. simpl in Hk.
+    destruct (cache_find sec k seen) as [c|] eqn:Hf; [|congruence].
+    pose proof (step_known_no_effect cfg now src bus raw seen sec k c Hk Hf) as H. rewrite Hst in H. exact H.
+  - eapply (IH seen1 sec k j i); eauto.
+    pose proof (step_monotone cfg now src bus raw seen sec k Hs) as H. rewrite Hst in H. exact H.
+Qed.
+
+(* single execution: in any history of datagrams, two datagrams with the same key (same client secret, same
+   code/identifier/length/Request Authenticator) do not both take effect *)
+Lemma single_execution cfg : forall ins seen j1 j2 i1 i2 o1 o2 key,
+  (j1 < j2)%nat ->
+  nth_error ins j1 = Some i1 -> nth_error ins j2 = Some i2 ->
+  key_of cfg i1 = Some key -> key_of cfg i2 = Some key ->
+  nth_error (coa_run md5raw fl cfg seen ins) j1 = Some o1 ->
+  nth_error (coa_run md5raw fl cfg seen ins) j2 = Some o2 ->
+  effect o1 <> None -> effect o2 = None.
+Proof.
+  induction ins as [|[[[now src] bus] raw] r IH]; intros seen j1 j2 i1 i2 o1 o2 [sec k] Hlt H1 H2 K1 K2 O1 O2 He;
+    [destruct j1; discriminate|].
+  simpl in O1, O2. destruct (coa_step_st md5raw fl cfg now src bus raw seen) as [oo seen1] eqn:Hst.
+  destruct j2 as [|j2]; [lia|]. simpl in H2, O2.
+  destruct j1 as [|j1]; simpl in H1, O1.
+  - inversion H1; subst i1. inversion O1; subst oo. simpl in K1.
+    destruct (effect o1) as [e|] eqn:Heo; [|congruence].
+    pose proof (step_effect_remembered cfg now src bus raw seen e sec k) as Hr. rewrite Hst in Hr.
+    specialize (Hr Heo K1).
+    eapply (run_known_no_effect cfg r seen1 sec k j2 i2); eauto.
+  - eapply (IH seen1 j1 j2 i1 i2 o1 o2 (sec, k)); eauto. lia.
+Qed.
+
+End W.
